@@ -1209,6 +1209,8 @@ func (g *Gtp5g) UpdateURR(lSeid uint64, req *ie.IE) ([]report.USAReport, error) 
 	var urrid uint64
 	var attrs []nl.Attr
 	var usars []report.USAReport
+	var newTrig *report.ReportingTrigger
+	var newPeriod time.Duration
 
 	ies, err := req.UpdateURR()
 	if err != nil {
@@ -1245,11 +1247,13 @@ func (g *Gtp5g) UpdateURR(lSeid uint64, req *ie.IE) ([]report.USAReport, error) 
 				Type:  gtp5gnl.URR_REPORTING_TRIGGER,
 				Value: nl.AttrU32(rptTrig.Flags),
 			})
+			newTrig = &rptTrig
 		case ie.MeasurementPeriod:
 			v, err1 := i.MeasurementPeriod()
 			if err1 != nil {
 				return nil, err1
 			}
+			newPeriod = v
 			// TODO: convert time.Duration -> ?
 			attrs = append(attrs, nl.Attr{
 				Type:  gtp5gnl.URR_MEASUREMENT_PERIOD,
@@ -1291,6 +1295,18 @@ func (g *Gtp5g) UpdateURR(lSeid uint64, req *ie.IE) ([]report.USAReport, error) 
 	rs, err := gtp5gnl.UpdateURROID(g.client, g.link.link, oid, attrs)
 	if err != nil {
 		return nil, err
+	}
+
+	// keep the periodic-report registration in step with updated triggers:
+	// PERIO withdrawn -> unregister; PERIO given together with a period ->
+	// (re-)register with that period
+	if newTrig != nil {
+		if !newTrig.PERIO() {
+			g.ps.DelPeriodReportTimer(lSeid, uint32(urrid))
+		} else if newPeriod > 0 {
+			g.ps.DelPeriodReportTimer(lSeid, uint32(urrid))
+			g.ps.AddPeriodReportTimer(lSeid, uint32(urrid), newPeriod)
+		}
 	}
 
 	if rs == nil {
